@@ -280,11 +280,16 @@ Definition decode_case (s : str) : option case_order :=
          else if str_eqb s s_lower_first then Some CaseLowerFirst else None
   end.
 
+(* from the source (GenSort): does an iteration start with an empty language string; do all keys
+   end up looking at one string *)
+Definition lang_fresh : bool := lang_cleared_per_key || negb lang_shared_scratch.
+Definition lang_aliased : bool := lang_by_pointer && lang_shared_scratch.
+
 (* one iteration of the loop; state = (langString, scratchString).  The key is produced with the
    language string as it is at that moment; sort_attrs then applies the pointer semantics. *)
 Definition sort_attr_step (st : str * str) (e : sort_elem) : option (skey * (str * str)) :=
   let '(lang, scratch) := st in
-  let lang1 := avt_eval (if lang_cleared_per_key then [] else lang) (se_lang e) in
+  let lang1 := avt_eval (if lang_fresh then [] else lang) (se_lang e) in
   let s1 := avt_eval scratch (se_dtype e) in
   match decode_dtype s1 with
   | None => None
@@ -318,12 +323,12 @@ Fixpoint sort_attrs_loop (st : str * str) (es : list sort_elem) : option (list s
 Definition set_lang (l : str) (k : skey) : skey :=
   {| k_num := k_num k; k_desc := k_desc k; k_case := k_case k; k_lang := l |}.
 
-(* NodeSortKey keeps a *pointer* to sortChildren's langString: when the sort runs, every key sees
-   the final content of that string *)
+(* NodeSortKey keeps a *pointer* to sortChildren's langString: when that is one string for all
+   keys, every key sees its final content when the sort runs *)
 Definition sort_attrs (es : list sort_elem) : option (list skey) :=
   match sort_attrs_loop ([], []) es with
   | None => None
-  | Some (ks, final) => Some (if lang_by_pointer then map (set_lang final) ks else ks)
+  | Some (ks, final) => Some (if lang_aliased then map (set_lang final) ks else ks)
   end.
 
 (* the specification: each key on its own *)
@@ -342,7 +347,7 @@ Fixpoint own_keys (es : list sort_elem) : option (list skey) :=
 (* exact guard under which every key gets its own language: the string left by the loop equals
    each key's own lang value *)
 Definition final_lang (es : list sort_elem) : str :=
-  fold_left (fun l e => avt_eval (if lang_cleared_per_key then [] else l) (se_lang e)) es [].
+  fold_left (fun l e => avt_eval (if lang_fresh then [] else l) (se_lang e)) es [].
 Definition langs_independent (es : list sort_elem) : bool :=
   forallb (fun e => str_eqb (avt_own (se_lang e)) (final_lang es)) es.
 
